@@ -27,7 +27,7 @@ theorem root_range (txt : Bytes) (opt : Opt) (c : Ctx) (h : initCtx txt opt = .o
   obtain ⟨ns, _, h⟩ := h
   res_norm at h
   subst h
-  simp [hp]
+  simp [hp, rootNode]
 
 /-- How the tokenizer fills `qname_len` and `eq_len` (tokenizer.rs, the attribute loop): within
 the documented limits (`u16` for the qualified name, `u8` for `=` with its spaces), `range_qname`
